@@ -74,8 +74,9 @@ class Dim:
         self.var = {}
         self.conflicts = []
 
-    def root_dim(self, e):
+    def root_dim(self, e, _seen=None):
         """dimension of the buffer a slice expression is cut from"""
+        _seen = _seen if _seen is not None else set()
         e = strip_ref(e)
         while True:
             if e[0] in ('deref', 'ref'):
@@ -91,17 +92,21 @@ class Dim:
                 return S
             if e[1] in self.dst:
                 return D
-            # a local re-slice of an argument (let mut src = buffer;)
+            # a local re-slice of an argument (let mut src = buffer;), possibly re-sliced from itself in a loop
+            # (src = &src[n..]): the definitions that lead back to the local itself add nothing
+            if e[1] in _seen:
+                return None
+            _seen = _seen | {e[1]}
             ds = self.b.defs.get(e[1], [])
             dims = set()
             for d in ds:
                 if d[2] == 'assign':
                     v = self.r.rvalue(d[3]['rv'])
                     if v != e:
-                        dims.add(self.root_dim(v))
+                        dims.add(self.root_dim(v, _seen))
                 elif d[2] == 'call':
                     v = self.r.call(d[3], d[0], 0)
-                    dims.add(self.root_dim(v))
+                    dims.add(self.root_dim(v, _seen))
             dims.discard(None)
             if len(dims) == 1:
                 return dims.pop()
@@ -124,6 +129,20 @@ class Dim:
             return self.len_dim(x[2][0], depth + 1)
         if x[0] == 'loc' and x[1] > self.b.arg_count:
             ds = self.b.defs.get(x[1], [])
+            if len(ds) >= 2 and depth < 50:
+                # a cursor kept as a shrinking slice (rest = &rest[n..]): its length is what is left of the buffer, a count
+                for d in ds:
+                    if d[2] == 'assign':
+                        v = strip_ref(self.r.rvalue(d[3]['rv']))
+                        while v[0] in ('deref', 'ref'):
+                            v = strip_ref(v[1])
+                        if v[0] == 'call' and short(v[1]) in ('index', 'index_mut') and len(v[2]) == 2 and v[2][1][0] == 'agg' and \
+                                v[2][1][1].endswith('RangeFrom::RangeFrom'):
+                            base = strip_ref(v[2][0])
+                            while base[0] in ('deref', 'ref'):
+                                base = strip_ref(base[1])
+                            if base == x:
+                                return N
             if len(ds) == 1 and depth < 50:
                 d = ds[0]
                 v = self.r.rvalue(d[3]['rv']) if d[2] == 'assign' else self.r.call(d[3], d[0], 0)
@@ -222,8 +241,12 @@ class Dim:
         locs = [i for i, l in enumerate(b.locals) if i > b.arg_count and l['ty'] == 'usize' and len(b.defs.get(i, [])) >= 2]
         # usage seeds: a loop-carried local that is itself used as an index / range bound of a buffer is a position in that buffer
         # (it starts at 0 and accumulates counts, so assignments alone would only make it a count)
+        self.index_uses = {}
+
         def seed(base, idx):
             rd = self.root_dim(base)
+            if idx[0] == 'loc':
+                self.index_uses.setdefault(idx[1], []).append(base)
             if rd in (S, D) and idx[0] == 'loc' and idx[1] in locs and not self.min_select(idx[1]):
                 cur_ = self.var.get(idx[1], C)
                 # indexing both buffers with the same local: a position valid in both (1:1 conversions)
@@ -301,6 +324,36 @@ def run(rep, f, c, rule='R-DIM'):
         r = dm.r
         seen = set()
         shared = sorted(l for l, d in dm.var.items() if d == B)
+
+        def len_sig(base):
+            """what fixes the length of an indexed buffer: ('arr', N) for [T; N] (through references), ('cut', k) for x[..k] / x[a..k]"""
+            e = strip_ref(base)
+            while e[0] in ('deref', 'ref'):
+                e = strip_ref(e[1])
+            if e[0] == 'call' and short(e[1]) in ('index', 'index_mut') and len(e[2]) == 2 and e[2][1][0] == 'agg':
+                if e[2][1][1].endswith('RangeTo::RangeTo'):
+                    return ('cut', e[2][1][2][0])
+                if e[2][1][1].endswith('Range::Range'):
+                    return ('cut', e[2][1][2][1])
+            if e[0] == 'loc':
+                import re as _re
+                m = _re.search(r'\[[^;\[\]]+;\s*(\d+)\]$', b.locals[e[1]]['ty'].strip())
+                if m:
+                    return ('arr', int(m.group(1)))
+                sd = b.single_def(e[1])
+                if sd is not None and sd[2] == 'assign':
+                    v = r.rvalue(sd[3]['rv'])
+                    if v != e:
+                        return len_sig(v)
+            return None
+        # one index over several buffers is the natural form of a unit-for-unit copy: legitimate when all of them have the same
+        # length by construction (fixed arrays of one size, slices cut to one common length)
+        lockstep = []
+        for l in list(shared):
+            sigs = {repr(len_sig(x)) for x in dm.index_uses.get(l, [])}
+            if len(sigs) == 1 and 'None' not in sigs:
+                lockstep.append(l)
+                shared.remove(l)
         base_name = name.split('::')
         fn_key = name
         for k_ in SHARED_OK:
